@@ -1,7 +1,7 @@
 (* C09 — the source-derived tables (gen/Facts.v, regenerated from the working tree on every run)
    are, member by member, the tables of Micro.v whose interpretations are Model.v's functions. *)
 From Common Require Import Prelude.
-From C09 Require Export Model Micro.
+From C09 Require Export Model Env Micro.
 From C09.gen Require Export Facts.
 
 Lemma match_MDefCtor : gen_table MDefCtor = model_table MDefCtor. Proof. reflexivity. Qed.
@@ -38,4 +38,10 @@ Proof. reflexivity. Qed.
 Lemma match_any : forall m, gen_any m = model_any m.
 Proof. intros []; reflexivity. Qed.
 Lemma match_holder : gen_holder = model_holder.
+Proof. reflexivity. Qed.
+Lemma match_env : forall k, gen_env k = model_env k.
+Proof. intros []; reflexivity. Qed.
+Lemma match_env_generic : gen_env_generic_empty = true.
+Proof. reflexivity. Qed.
+Lemma match_traits : gen_traits = model_traits.
 Proof. reflexivity. Qed.
